@@ -28,6 +28,14 @@ Domain : as C01 (vf.pipeline configurations: Colang 1.0 / 2.x, dialog rails on/o
          same line) - for a bot intent without predefined message (next_llm) or with one (next_predef).  That text is LLM text
          of the turn like any other: if it (or any part) is returned, now or in a later turn that utters the same bot intent,
          it must have passed the output rails of that turn.  `steps` is also generated with multi-step generation off.
+         Turn key `fault` ("dialog"): the custom action(s) the flow of the turn executes RAISE.  Routes with a custom action:
+         act_llm / act_var (action = first step of the flow) and, in configurations whose "ext" contains "act" (c02-act, c02-ms+act,
+         c02-par+act; both Colang versions, generated dialog), pal = predefined message, action, LLM message; pap = predefined
+         message, action, predefined message; lap (2.x only) = LLM message, action, predefined message - so a turn may already have
+         uttered something when it fails (Colang 1.0: reply = messages so far + internal-error message, the turn is hidden from the
+         history - `hide_prev_turn`; Colang 2.x: the flow carries on).  A failure is the third kind of turn event of the statement's
+         last sentence: the faulted turn itself must not return unchecked / rejected LLM text (nothing else is asserted about it),
+         every later turn is judged by the unchanged memoryless model.
          Colang 2.x route `par` (configuration key "ext": "c02-par", dialog True): `vf llm reply and vf llm reply` - two
          LLM texts obtained and said IN PARALLEL (and-group).  Generated only when PARALLEL_ROUTE is on (see there).
 Oracle : reference model of the output chain (vf.pipeline.model_output) per LLM-generated text, memoryless over
@@ -84,11 +92,20 @@ RULE = (
     "next_llm/next_predef turns of those (and of a third of the other dialog configurations) the generate_next_steps completion carries "
     "the bot message inline (step + indented quoted text; + a predefined step after / before it; text on the same line) for a bot "
     "intent without (next_llm) or with (next_predef) a predefined message, and the same intents are uttered again in later turns "
-    "with and without inline text. Colang 2.x route par (two LLM "
+    "with and without inline text. Failure as turn event: two thirds of the configurations with a generated dialog (both versions) "
+    "get three more flows in which a custom action runs AFTER a bot message (routes pal = predefined, action, LLM message; pap = predefined, "
+    "action, predefined; lap = LLM message, action, predefined - 2.x only); in half of the conversations of dialog configurations three "
+    "quarters of the turns whose route executes a custom action (act_llm, act_var, pal, pap, lap) carry fault=dialog: the action raises "
+    "(Colang 1.0: internal-error reply behind whatever was uttered, turn hidden from the history; 2.x: flow continues). Enumerated: "
+    "llm, X+fault, llm with every single-turn event, llm for every such route X, two faulted turns in a row before a predefined+LLM turn, "
+    "faulted and fault-free runs of the same route in one conversation. Labels fault:action-raises-after-predefined-message / "
+    "-after-llm-message / -as-first-step, fault:v<n>:<route>, llm-turn-right-after-faulted-turn, faulted-turn-before-later-llm-turn. "
+    "Colang 2.x route par (two LLM "
     "replies said in parallel, hand-written rails) only while PARALLEL_ROUTE is on. Non-trivial = at least 2 turns and a reject or rewrite by an output rail in a turn strictly before the "
     "last turn that generated an LLM message, or a repeated LLM text in a conversation with a reject/rewrite, or a call with the output "
     "rails switched off before a later call with them on that generated an LLM message, or an over-long completion that made the "
-    "self-check rail fail (turn answered without the text) before a later turn that generated an LLM message; distinct by the whole case."
+    "self-check rail fail (turn answered without the text) before a later turn that generated an LLM message, or a turn whose custom "
+    "action raised before a later turn that generated an LLM message; distinct by the whole case."
 )
 ASSUMPTIONS = [
     "rail actions are fakes (register_action); they apply their verdict to texts with an LLM lineage and accept anything else (refusals, predefined messages)",
@@ -98,6 +115,7 @@ ASSUMPTIONS = [
     "a reasoning block the LLM puts in front of its completion is LLM text like the rest: an implementation may drop it, but whatever part of the completion is returned must have been given to the output rails, and nothing of a rejected completion may be returned",
     "a completion may be longer than an output rail can take (the shipped self check output rail renders it into a prompt of at most 16000 characters): the rail may then fail and the turn be answered with a refusal / the internal-error message - nothing is asserted about such a turn except that the text is absent; a text that IS returned was given to every rail of the chain completely (both ends), in one or several invocations",
     "a bot message text that the LLM writes into its generate_next_steps completion (inline, under the bot step) is LLM text of that turn: the implementation may ignore it (the unchanged tree does: it asks for the message again), no obligation arises unless the text reaches a reply",
+    "a custom action that raises is a failure of its turn in the sense of the statement's last sentence: how the faulted turn is answered is C03's subject (here only: it returns no LLM text that did not pass the complete chain, and the refusal of a rejecting rail is not demanded in it); every later turn of the conversation is checked exactly like a turn of a conversation without the failure. The fault is raised by the fake custom action itself (fakes.InjectedFault, a RuntimeError); rail actions and the LLM never fail here",
     "a turn that needs more than 100 internal events makes the Colang 1.0 runtime raise `Too many events.`; such cases are counted as skipped",
 ]
 
@@ -176,7 +194,10 @@ class _Session(fakes.Session):
     Turn key "long" ({"n": length, "place": "head" | "tail"}): the fresh message texts of the turn are `long_text`s.
     Turn key "steps" (one of NEXT_STEPS_SHAPES; routes next_llm / next_predef): the generate_next_steps completion carries
     the bot message INLINE - the bot step followed by an indented quoted text (or the text on the same line) - alone, followed
-    by a predefined step or after one."""
+    by a predefined step or after one.
+    Turn key "fault" ("dialog"): the custom action(s) the flow of this turn executes raise (fakes.InjectedFault) - routes with a
+    custom action: act_llm / act_var (the action is the first step of the flow) and the routes of the extension "act" (ACT_ROUTES:
+    the action comes after a bot message)."""
 
     def message_text(self, turn, k, body):
         text = super().message_text(turn, k, body)
@@ -186,7 +207,15 @@ class _Session(fakes.Session):
             self.message_texts[turn][-1] = text
         return text
 
+    def should_fail(self, action_name, k):
+        entry = self.trace[-1]  # appended by fakes._enter just before this call
+        if entry.get("cat") == "dialog" and self.turns[entry["turn"]].get("fault") == "dialog":
+            return True  # turn key "fault": every invocation of a custom (dialog) action in this turn raises
+        return super().should_fail(action_name, k)
+
     def llm_answer(self, task, prompt, turn, k):
+        if task == "generate_user_intent" and (turn, k) not in self.override and self.route(turn) in ACT_ROUTES:
+            return "  " + ACT_ROUTES[self.route(turn)][0]
         shape = self.turns[turn].get("steps") if turn < len(self.turns) else None
         if task == "generate_next_steps" and shape and (turn, k) not in self.override:
             step = "bot " + fakes.NEXT_STEP.get(self.route(turn), "inform something")
@@ -241,6 +270,75 @@ def _ms_build_config(cfg, colang, yaml_text):
 
 pipeline.register_extension(EXT_MS, build_config=_ms_build_config)
 
+# Both Colang versions: flows in which a custom action runs AFTER a bot message (route -> (v1 user intent, steps); P = predefined
+# message, A = custom dialog action, L = LLM-generated message).  Together with the turn key "fault" (the action raises) this gives
+# turns that have already uttered something when they fail: Colang 1.0 answers with the messages so far + the internal-error
+# message and hides the turn (`hide_prev_turn`), Colang 2.x carries on with the flow.
+EXT_ACT = "c02-act"
+ACT_ROUTES = {
+    "pal": ("ask lookup", ["P", "A", "L"]),
+    "pap": ("ask order", ["P", "A", "P"]),
+    "lap": ("ask report", ["L", "A", "P"]),  # (Colang 2.x only: with output rails Colang 1.0 ends a flow after its first LLM message)
+}
+FAULT_ROUTES = ("act_llm", "act_var") + tuple(ACT_ROUTES)  # routes whose flow executes a custom action
+_V1_ACT = """
+define user ask lookup
+  "look that up"
+
+define user ask order
+  "where is my order"
+
+define flow lookup
+  user ask lookup
+  bot express greeting
+  execute vf_dialog_action
+  bot inform lookup
+
+define flow order
+  user ask order
+  bot express greeting
+  execute vf_dialog_action
+  bot offer help
+
+"""
+_V2_ACT = (
+    '  elif $route == "pal"\n    bot say "{greet}"\n    await VfDialogAction()\n    vf llm reply\n'
+    '  elif $route == "pap"\n    bot say "{greet}"\n    await VfDialogAction()\n    bot say "{help}"\n'
+    '  elif $route == "lap"\n    vf llm reply\n    await VfDialogAction()\n    bot say "{help}"\n'
+).format(**fakes.PREDEF)
+
+
+def _act_build_config(cfg, colang, yaml_text):
+    if cfg["v"] == 1:
+        if "define flow weather" not in colang:
+            raise RuntimeError("c02: the routes of the extension `act` need the generated Colang 1.0 dialog")
+        return colang + _V1_ACT, yaml_text
+    if colang.count(_PAR_ANCHOR) != 1:
+        raise RuntimeError("c02: the generated Colang 2.x dialog flow no longer has the branch the `act` routes are inserted before")
+    return colang.replace(_PAR_ANCHOR, _V2_ACT + _PAR_ANCHOR), yaml_text
+
+
+def _chain(*builders):
+    def build(cfg, colang, yaml_text):
+        for b in builders:
+            colang, yaml_text = b(cfg, colang, yaml_text)
+        return colang, yaml_text
+
+    return build
+
+
+# (a configuration spec names ONE extension: the combinations are registered under their own names)
+EXT_MS_ACT, EXT_PAR_ACT = "c02-ms+act", "c02-par+act"
+pipeline.register_extension(EXT_ACT, build_config=_act_build_config)
+pipeline.register_extension(EXT_MS_ACT, build_config=_chain(_ms_build_config, _act_build_config))
+pipeline.register_extension(EXT_PAR_ACT, build_config=_chain(_par_build_config, _act_build_config))
+
+
+def _ext_has(cfg, feature):
+    """feature in {"ms", "par", "act"}: is it part of the configuration's extension?"""
+    ext = cfg.get("ext") or ""
+    return ext.startswith("c02-") and feature in ext[4:].split("+")
+
 # lengths of long completions: around half of the self-check prompt's default max_length (16000), between half and whole,
 # around the whole, far beyond; a few moderately long ones as control
 HALF, FULL = 8000, 16000
@@ -288,6 +386,13 @@ def _case(draw):
     multi_step = v == 1 and cfg["dialog"] is True and draw(st.sampled_from([False, False, True]))
     if multi_step:
         cfg["ext"] = EXT_MS
+    # flows in which a custom action runs after a bot message (two thirds of the configurations with a generated dialog)
+    act_routes = cfg["dialog"] is True and draw(st.sampled_from([False, True, True]))
+    if act_routes:
+        cfg["ext"] = {None: EXT_ACT, EXT_MS: EXT_MS_ACT, EXT_PAR: EXT_PAR_ACT}[cfg.get("ext")]
+        routes = tuple(routes) + (("pal", "pal", "pap") if v == 1 else ("pal", "pal", "pap", "lap"))
+    # a turn whose custom action raises: in half of the conversations of configurations with a generated dialog
+    with_faults = cfg["dialog"] is True and draw(st.booleans())
     # the LLM is asked for the next step(s) on the next_* routes only: more of them where the completion is parsed as a flow
     inline_routes = v == 1 and cfg["dialog"] is True and (multi_step or draw(st.sampled_from([False, False, True])))
     if inline_routes:
@@ -321,6 +426,9 @@ def _case(draw):
         if inline_routes and turns[-1]["route"] in ("next_llm", "next_predef") and draw(st.sampled_from([True, True, True, False])):
             # the completion that names the next step carries the bot message with it
             turns[-1]["steps"] = draw(st.sampled_from(NEXT_STEPS_SHAPES[:3] * 2 + NEXT_STEPS_SHAPES[3:]))
+        if with_faults and turns[-1]["route"] in FAULT_ROUTES and draw(st.sampled_from([True, True, True, False])):
+            # the custom action(s) of this turn's flow raise
+            turns[-1]["fault"] = "dialog"
         if draw(st.sampled_from(p_long)):
             # a very long completion: checked material at its beginning and its end
             turns[-1]["long"] = {"n": draw(_ST_LONG_N), "place": draw(st.sampled_from(["head", "tail"]))}
@@ -479,6 +587,31 @@ def enumerate_cases(tier):
                         turns[-1]["long"] = lg
                 yield {"config": cfg, "turns": turns, "api": "sync"}
 
+    # a turn whose custom action raises - after a predefined message (pal, pap), after an LLM message (lap, Colang 2.x) or as the
+    # first step of its flow (act_llm, act_var) - then a turn with every single-turn event, then an ordinary turn; and two failing
+    # turns in a row followed by a turn that says a predefined and an LLM message
+    for v in (1, 2):
+        for kinds in (["check"], ["self"], ["both", "check"]) if v == 1 else (["check"], ["check", "self"]):
+            for exc in (False, True):
+                cfg = {"v": v, "in": [], "out": kinds, "dialog": True, "exc": exc, "ext": EXT_ACT}
+                if v == 2:
+                    cfg["style"] = "hand" if exc else "config"
+                else:
+                    cfg["ret"] = 0
+                A = ["accept"] * len(kinds)
+                events = [A, ["reject"] + A[1:]] + ([A[:-1] + ["reject"]] if len(kinds) > 1 else []) + ([["rewrite"] + A[1:]] if kinds[0] == "both" else [])
+                for ev in events:
+                    seqs = [(("llm", A, 0), (x, A, 1), ("llm", ev, 0), ("llm", A, 0)) for x in (("pal", "pap", "act_llm", "act_var") if v == 1 else ("pal", "pap", "lap", "act_llm"))]
+                    seqs.append((("pal", A, 1), ("pap", A, 1), ("pl", ev, 0), ("llm", A, 0)))
+                    seqs.append((("pap", A, 1), ("pal", ev, 0), ("pal", ev, 1), ("llm", ev, 0)))
+                    for seq in seqs:
+                        turns = []
+                        for t, (route, out, fault) in enumerate(seq):
+                            turns.append({"user": f"{fakes.mk_user(t)} look that up", "route": route, "in": [], "out": out, "body": "some answer"})
+                            if fault:
+                                turns[-1]["fault"] = "dialog"
+                        yield {"config": cfg, "turns": turns, "api": "sync"}
+
     # Colang 2.x: two LLM replies said in parallel (see PARALLEL_ROUTE)
     if _parallel_route_on():
         for exc in (False, True):
@@ -498,6 +631,14 @@ def _detail(cfg, t, **kw):
         d["ext"] = cfg["ext"]
     d.update(kw)
     return d
+
+
+def _first_message_kind(cfg, route):
+    """"P" / "L": kind of the first bot message of the flow the route selects (labels only)."""
+    if not cfg["dialog"]:
+        return "L"
+    kinds = ACT_ROUTES[route][1] if route in ACT_ROUTES else fakes.ROUTES.get(route, (None, ["L"]))[1]
+    return next((k for k in kinds if k in ("P", "L")), "L")
 
 
 def _aborts_before(case, obs, t):
@@ -526,8 +667,11 @@ def _check(case, obs):
         labels.append("passthrough" + ("+dialog" if cfg["dialog"] else ""))
     if any(spec.get("options") is not None for spec in case["turns"]):
         labels.append("conversation-with-generation-options")
-    if cfg.get("ext") == EXT_MS:
+    if _ext_has(cfg, "ms"):
         labels.append("multi-step-generation")
+    if _ext_has(cfg, "act"):
+        labels.append("flows-with-action-after-bot-message")
+    faulted_at = []  # turns in which a custom action raised
     failed_closed_at = []  # turns whose over-long LLM completion was answered with a refusal / the internal-error message
     off_turns = []  # calls served with the output rails switched off (nothing asserted about them)
     checked_after_off = False
@@ -558,6 +702,24 @@ def _check(case, obs):
             labels.append("llm-completion-with-think-block" + ("(multi-line)" if "\n" in spec["think"] else ""))
         if spec.get("route") == "par" and cfg["dialog"]:
             labels.append("v2-parallel-llm-replies")
+        # a custom action of the turn's flow raised (trace evidence): nothing is asserted about how such a turn is answered, only
+        # that it returns no unchecked / rejected LLM text - the turns after it are judged as ever
+        faulted = any(e["cat"] == "dialog" and e.get("verdict") == "raise" for e in o["trace"])
+        if spec.get("fault"):
+            kinds_before = ACT_ROUTES[spec["route"]][1] if spec.get("route") in ACT_ROUTES else ["A"]
+            after = {"P": "after-predefined-message", "L": "after-llm-message", "A": "as-first-step"}[kinds_before[0]]
+            labels.append(f"fault:action-raises-{after}" if faulted else "fault:planned-not-reached")
+            if faulted:
+                labels.append(f"fault:v{v}:{spec.get('route')}")
+        if faulted:
+            if faulted_at and faulted_at[-1] == t - 1:
+                labels.append("fault:two-faulted-turns-in-a-row")
+            faulted_at.append(t)
+        elif faulted_at and faulted_at[-1] == t - 1:
+            first = _first_message_kind(cfg, spec.get("route"))
+            labels.append("turn-after-faulted-turn:first-message-" + {"L": "llm", "P": "predefined"}.get(first, "other"))
+            if messages and not off:
+                labels.append("llm-turn-right-after-faulted-turn" + (":after-fault-behind-predefined-message" if case["turns"][t - 1].get("route") in ("pal", "pap") else ""))
         if messages and not off:
             llm_turns.append(t)
             if off_turns:
@@ -631,7 +793,7 @@ def _check(case, obs):
                 # ... and is returned in its final form only
                 if m["final"] not in text or (m["final"] != m["orig"] and present_raw):
                     raise Violation("rewrite-not-returned", f"{tag}: expected the reply to carry {m['final']} (and not the original), got {text[:120]!r}", _detail(cfg, t, **sig))
-            if m["blocked"] is not None and len(entries) >= m["need"]:
+            if m["blocked"] is not None and len(entries) >= m["need"] and not faulted:
                 # (c) the rejection was delivered: the refusal (or rail exception) of a rejecting rail is the answer
                 rej = [i for i, c in enumerate(m["calls"][: len(entries)]) if c["verdict"] == "reject"]
                 if cfg["exc"]:
@@ -681,7 +843,10 @@ def _check(case, obs):
     failed_before = bool(failed_closed_at and llm_turns and min(failed_closed_at) < max(llm_turns))
     if failed_before:
         labels.append("long-completion-failed-closed-before-later-llm-turn")
-    nt = bool(events_at and llm_turns and min(events_at) < max(llm_turns)) or (repeated and bool(events_at)) or checked_after_off or failed_before
+    fault_before = bool(faulted_at and llm_turns and min(faulted_at) < max(llm_turns))
+    if fault_before:
+        labels.append("faulted-turn-before-later-llm-turn")
+    nt = bool(events_at and llm_turns and min(events_at) < max(llm_turns)) or (repeated and bool(events_at)) or checked_after_off or failed_before or fault_before
     if nt:
         labels.append("event-before-later-llm-turn")
         if any(e >= 1 for e in events_at):
@@ -703,7 +868,7 @@ def known(case, violation):
     # With several rails the symptoms vary (one text misses the whole chain, or only the rails that ran while the flag was set, a rail
     # judges the other message's text): every output-rail violation *in a turn that says two LLM texts in parallel* is this finding;
     # turns of other routes in the same conversation are judged as always.
-    if d.get("ext") == EXT_PAR and d.get("route") == "par" and violation.kind in ("unchecked-llm-text-in-reply", "output-rail-chain", "blocked-text-in-reply", "rewrite-not-returned"):
+    if d.get("ext") in (EXT_PAR, EXT_PAR_ACT) and d.get("route") == "par" and violation.kind in ("unchecked-llm-text-in-reply", "output-rail-chain", "blocked-text-in-reply", "rewrite-not-returned"):
         return "C02-F23"
     # F1: after an output rail aborted in an earlier turn, the output rails are skipped altogether
     if violation.kind == "unchecked-llm-text-in-reply" and d.get("n_out_calls") == 0 and d.get("earlier_aborts"):
